@@ -46,8 +46,8 @@ class C06(CheckBase):
             with open(p, "rb") as f:
                 self.valid.append(("u_" + os.path.splitext(os.path.basename(p))[0], f.read().decode("latin-1")))
         import os as _os
-        with open(_os.path.join(_os.path.dirname(_os.path.dirname(_os.path.abspath(__file__))), "simlib", "data", "algo_sink.exp")) as f:
-            self.valid.append(("algo_sink", f.read()))     # hand-written: functions, procedures, rules, constants, queries, USE/REFERENCE with renames
+        with open(_os.path.join(_os.path.dirname(_os.path.dirname(_os.path.abspath(__file__))), "simlib", "data", "algo_sink.exp"), "rb") as f:
+            self.valid.append(("algo_sink", f.read().decode("latin-1")))     # hand-written: functions, procedures, rules, constants, queries, USE/REFERENCE with renames
         from simlib import kitchen
         ks = kitchen.kitchen_sink()
         self.valid.append((ks["name"], pm.emit_express(ks)))
